@@ -698,3 +698,13 @@ def run(facts, rep, ctx):
     _run_before_round5(facts, rep, ctx)
     from . import round5
     round5.ts12(facts, rep)
+
+
+_run_before_round6 = run
+
+
+def run(facts, rep, ctx):
+    """rules added after the fifth seeding round (rules/round6.py)"""
+    _run_before_round6(facts, rep, ctx)
+    from . import round6
+    round6.ts13(facts, rep)
